@@ -16,6 +16,7 @@ Every value carries a ghost *taint* (a z3 Bool: "may depend on private data") an
 ghost attributes (sensitivities, noise kind) used by the privacy contracts.
 """
 import ast
+import os
 import z3
 
 V = z3.DeclareSort('PyVal')          # universal sort for values the theories do not interpret
@@ -1763,6 +1764,9 @@ class Engine:
                 return BoolV(z3.BoolVal((str(args[0].t), args[1].v) in st.fields))
             if name == 'public' and len(args) == 1:
                 return BoolV(z3.Not(args[0].taint))
+            if name in ('range_lo', 'range_hi') and len(args) == 1 and 'range' in (getattr(args[0], 'ghost', None) or {}):
+                lo, hi = args[0].ghost['range']              # spec functions: first element and end (exclusive) of a range object
+                return Num(lo if name == 'range_lo' else hi)
             if name == 'range':
                 vs = [a for a in args]
                 if all(isinstance(a, Num) for a in vs):
